@@ -59,12 +59,11 @@ theorem probe_closes :
     count (isTok "call:pluginConnector.Close()") step_plugin_provider_pluginProvider_LoadSchema = 3 := by
   decide +kernel
 
-/-- FINDING (F10e, see C12): the foreach provider increments its wait group INSIDE `run()`, after the goroutine was
-    started, so a `Close` that wins the race returns before `run()` registered itself.  Kernel-checked on the current
-    source: there is no `wg.Add` before the `go` statement of `Start`, and `run()` begins with it. -/
-theorem foreach_run_registers_itself_late :
-    has (startsWith "call:rs.wg.Add(") step_foreach_provider_runnableStep_Start = false ∧
-    step_foreach_provider_runningStep_run.head? = some "call:r.wg.Add(1)" := by
+/-- the foreach provider registers `run()` with the wait group BEFORE the goroutine is started (it used to do so
+    inside `run()`, so that a `Close` winning the race returned before `run()` had begun: finding F10e, fixed) -/
+theorem foreach_run_registered_before_start :
+    firstBefore (isTok "call:rs.wg.Add(1)") (isTok "go{") step_foreach_provider_runnableStep_Start = true ∧
+    has (startsWith "call:r.wg.Add(") step_foreach_provider_runningStep_run = false := by
   decide +kernel
 
 end Arca.Props.C05
